@@ -309,9 +309,22 @@ func c15Body(r *Run) {
 	var calls []*c15Call
 	var ev int64
 	byName := map[string]*c15Handler{}
+	// a third of the group runs: the Run context (hence every message context) is cancelled inside the k-th handler
+	// invocation; the remaining matching handlers of that message must still be called
+	cancelAtCall := -1
+	if procKind == 2 && t.Chance(1, 3) {
+		cancelAtCall = 1 + t.Int(4)
+		r.Param("cancel_in_group", 1)
+	}
+	totalCalls := 0
 	rec := func(handler string, typ int, ctx context.Context, v any) error {
 		h := byName[handler]
 		h.calls++
+		totalCalls++
+		if totalCalls == cancelAtCall {
+			r.Fault("context-cancel-inside-group-handler")
+			rig.cancel()
+		}
 		c := &c15Call{h: h, value: v}
 		ev++
 		c.ev = ev
@@ -477,6 +490,9 @@ func c15Body(r *Run) {
 					if c.d == nil {
 						r.Fail("C15.R4", "the handler's context does not expose the original message", "%s", c.h.name)
 					}
+				}
+				if r.Params["cancel_in_group"] == 1 && len(got) == 0 {
+					continue // emitted while everything was being cancelled: never reached the group
 				}
 				// expected invocations
 				var want []*c15Handler
